@@ -27,8 +27,17 @@ var solvers = []solverSpec{
 	}},
 }
 
+func runSolverCtx(parent context.Context, s solverSpec, file string, timeoutS int) (string, string) {
+	r, o, _ := runSolverIn(parent, s, file, timeoutS)
+	return r, o
+}
+
 func runSolver(s solverSpec, file string, timeoutS int) (string, string, float64) {
-	ctx, cancel := context.WithTimeout(context.Background(), time.Duration(timeoutS+2)*time.Second)
+	return runSolverIn(context.Background(), s, file, timeoutS)
+}
+
+func runSolverIn(parent context.Context, s solverSpec, file string, timeoutS int) (string, string, float64) {
+	ctx, cancel := context.WithTimeout(parent, time.Duration(timeoutS+2)*time.Second)
 	defer cancel()
 	argv := s.argv(file, timeoutS)
 	cmd := exec.CommandContext(ctx, argv[0], argv[1:]...)
@@ -81,36 +90,60 @@ func solveAll(ctx *SMTCtx, obls []*Obligation, dir string, timeoutS int, workers
 				os.WriteFile(file, []byte(full), 0o644)
 				t0 := time.Now()
 				var agree []string
-				for si, s := range solvers {
-					tmo := timeoutS
-					if ob.Kind == "cover" {
-						// vacuity guard: expected answer is sat; quantified contexts often give unknown
-						if si > 0 {
-							break
-						}
-						tmo = 2
+				type sres struct {
+					name, res, out string
+				}
+				if ob.Kind == "cover" {
+					// vacuity guard: expected answer is sat; quantified contexts often give unknown
+					res, out, _ := runSolver(solvers[0], file, 2)
+					ob.Result, ob.Solver = res, solvers[0].name
+					if res == "sat" {
+						ob.Model = modelSummary(ob, out)
 					}
-					res, out, _ := runSolver(s, file, tmo)
-					if res == "unsat" || res == "sat" {
-						if ob.Result == "" || ob.Result == "unknown" || ob.Result == "timeout" || ob.Result == "error" {
-							ob.Result, ob.Solver = res, s.name
-							if res == "sat" {
-								ob.Model = modelSummary(ob, out)
+				} else {
+					// race the solvers; the first definite answer wins (thorough: all must agree)
+					ch2 := make(chan sres, len(solvers))
+					ctxs := make([]context.CancelFunc, len(solvers))
+					for si, s := range solvers {
+						c2, cancel := context.WithCancel(context.Background())
+						ctxs[si] = cancel
+						go func(s solverSpec, c2 context.Context) {
+							res, out := runSolverCtx(c2, s, file, timeoutS)
+							ch2 <- sres{s.name, res, out}
+						}(s, c2)
+					}
+					var first *sres
+					var fallback *sres
+					for k := 0; k < len(solvers); k++ {
+						r := <-ch2
+						if r.res == "unsat" || r.res == "sat" {
+							agree = append(agree, r.name+"="+r.res)
+							if first == nil {
+								rr := r
+								first = &rr
+								if !requireAgree {
+									break
+								}
 							}
-						}
-						agree = append(agree, s.name+"="+res)
-						if !requireAgree {
-							break
-						}
-					} else {
-						if ob.Result == "" {
-							ob.Result, ob.Solver = res, s.name
-							if res == "error" {
-								ob.Model = firstLines(out, 6)
-							}
+						} else if fallback == nil || (fallback.res == "error" && r.res != "error") {
+							rr := r
+							fallback = &rr
 						}
 					}
-					_ = si
+					for _, c := range ctxs {
+						c()
+					}
+					if first != nil {
+						ob.Result, ob.Solver = first.res, first.name
+						if first.res == "sat" {
+							ob.Model = modelSummary(ob, first.out)
+						}
+					} else if fallback != nil {
+						ob.Result, ob.Solver = fallback.res, fallback.name
+						if fallback.res == "error" {
+							ob.Model = firstLines(fallback.out, 6)
+						}
+					}
 				}
 				if requireAgree && len(agree) > 1 {
 					for _, a := range agree[1:] {
